@@ -19,6 +19,8 @@
 (*                    declaratively (CHOOSE among the translates by 2k)    *)
 (*   NormImpl(q)      Phase::normalize transcribed                         *)
 (*   PAdd PSub PNeg PMulInt       rational arithmetic, then Norm           *)
+(*   PMulRep PDivRep PDivIntRep   Mul<Phase>, Div<Phase>, Div<i64>: on the  *)
+(*                    representatives, NOT on classes (transcription only) *)
 (*   IsPauli IsClifford IsProperClifford IsT IsZero IsOne                  *)
 (*                    the code's predicates on the stored value            *)
 (*   ClsPauli ClsClifford ClsProperClifford ClsT                           *)
@@ -101,6 +103,19 @@ PAdd(p, q) == Norm(RAdd(p, q))
 PSub(p, q) == Norm(RSub(p, q))
 PNeg(p) == Norm(RNeg(p))
 PMulInt(p, k) == Norm(RMulInt(p, k))
+(* Mul<Phase>, Div<Phase>, Div<i64> (and *=, /=): the code multiplies / divides the STORED REPRESENTATIVES as
+   rationals and normalises.  These are not operations on classes (p and p + 2 have different products and
+   halves), so property C16 says nothing about WHICH class comes out; what it does say - every stored phase is
+   the canonical representative - applies to their results too.  The definitions below are the transcription
+   (trace validation compares with them as L1 only).  Divisors must be non-zero (num::Ratio panics otherwise). *)
+RMul(p, q) == Reduce(<<p[1] * q[1], p[2] * q[2]>>)
+RDiv(p, q) == Reduce(<<p[1] * q[2], p[2] * q[1]>>)         \* q[1] # 0
+RDivInt(p, k) == Reduce(<<p[1], p[2] * k>>)                \* k # 0
+PMulRep(p, q) == NormImpl(RMul(p, q))
+PDivRep(p, q) == NormImpl(RDiv(p, q))
+PDivIntRep(p, k) == NormImpl(RDivInt(p, k))
+\* Display for Phase = Display for num::Ratio on the stored value: "n" when d = 1, else "n/d"
+PhaseStr(p) == IF p[2] = 1 THEN ToString(p[1]) ELSE ToString(p[1]) \o "/" \o ToString(p[2])
 \* k-fold sum, k >= 0
 RECURSIVE RepAdd(_, _)
 RepAdd(p, k) == IF k = 0 THEN PZeroPh ELSE PAdd(RepAdd(p, k - 1), p)
@@ -222,6 +237,13 @@ PropMulInt(q, k) ==
   /\ PMulInt(Norm(q), k) = (IF k >= 0 THEN RepAdd(Norm(q), k) ELSE PNeg(RepAdd(Norm(q), -k)))
   /\ PMulInt(Norm(q), k) = Norm(RMulInt(Reduce(q), k))
   /\ Canonical(PMulInt(Norm(q), k))
+\* the representative-level product / quotients land on canonical representatives as well, and NormImpl = Norm there
+PropRingCanonical(q, r) ==
+  LET p == Norm(q)  s == Norm(r) IN
+  /\ Canonical(PMulRep(p, s)) /\ PMulRep(p, s) = Norm(RMul(p, s))
+  /\ (s[1] # 0 => Canonical(PDivRep(p, s)) /\ PDivRep(p, s) = Norm(RDiv(p, s)))
+PropDivIntCanonical(q, k) ==
+  LET p == Norm(q) IN k # 0 => Canonical(PDivIntRep(p, k)) /\ PDivIntRep(p, k) = Norm(RDivInt(p, k))
 \* the code's predicates on the stored value say what the class is, for every representative
 PropClassify(q) ==
   LET p == Norm(q) IN
